@@ -74,6 +74,14 @@ func (g *gen) fieldList() string {
 		case k < 17:
 			g.feat("field:regex-with-operator")
 			f = g.regex() + g.osp() + g.pick(arithOps) + g.osp() + g.primary(0)
+		case k < 19:
+			// CASE is a COLUMN of the grammar; the model does not cover it (spec diff only)
+			g.feat("field:case-when")
+			f = "CASE WHEN " + g.pick(plainIdents) + " > 1 THEN " + g.col(0)
+			if g.r.Bool() {
+				f += " WHEN " + g.pick(plainIdents) + " = 'x' THEN " + g.col(0)
+			}
+			f += " ELSE " + g.col(0) + " END"
 		default:
 			f = g.col(2)
 		}
@@ -120,6 +128,7 @@ func runFields(c *hx.Ctx, g *gen, text string) {
 		}
 		ans = "f1 " + d1 + " | pr " + hx16(printed) + " | f2 " + d2
 	}
+	caseWhen := strings.Contains(d1, "<*influxql.CaseWhenExpr>")
 	unmodelled := strings.Contains(d1, "<*") || (!accepted && err != nil && strings.Contains(err.Error(), "Invalid regexprs"))
 	if g.outOfDomain && accepted || unmodelled {
 		op = "xfields " + hx16(text)
@@ -152,7 +161,10 @@ func runFields(c *hx.Ctx, g *gen, text string) {
 	}
 	// localise: the first field that differs
 	cls := ""
-	if err == nil && len(f1) == len(f2) {
+	if caseWhen && err != nil {
+		// `CASE WHEN … END` is printed as it was written; parseUnaryExpr has no case for the keyword
+		cls = "case_when_not_reparsed"
+	} else if err == nil && len(f1) == len(f2) {
 		for i := range f1 {
 			if dump(f1[i].Expr) != dump(f2[i].Expr) || dumpBits(f1[i].Expr) != dumpBits(f2[i].Expr) {
 				cls = classify(f1[i].Expr, f2[i].Expr, true)
@@ -473,4 +485,84 @@ func runStmtOpts(c *hx.Ctx, g *gen) {
 		c.Count("gen:" + f)
 	}
 	runOptsObj(c, o, &opt)
+}
+
+// ---------------------------------------------------------------------------------------------
+// a pooled parser must read a text as a new one does
+
+var poolNext = []string{"/re/ = a", "/x/", "/a b/ + 1 > 2", "a / 2 > 1", "a.b = 1", "x.y.z > 0", "f(/re/)", "- 5 > a"}
+var poolSources = []string{"db.rp.m", "db..m", "m", "db.rp./re/", "\"my db\".rp.\"m.x\"", "/cpu.*/"}
+
+// what the pool hands out next has just read `prev` (sync.Pool gives the last parser put back to the
+// same P first; the runs are repeated so that a goroutine migration does not hide a difference)
+func afterPrev(prev int, f func() string) string {
+	out := ""
+	for rep := 0; rep < 3; rep++ {
+		switch prev {
+		case 0:
+			_, _ = influxql.ParseExpr("a = 1")
+		case 1:
+			_, _ = influxql.ParseExpr("a = 1 )")
+		case 2:
+			_, _ = hybridqp.ParseFields("x, mean(y)") // SELECT … FROM mock: ends after FROM <ident>
+		case 3:
+			_, _ = influxql.ParseExpr("b / 2")
+		case 4:
+			_, _ = influxql.ParseSortFields("a DESC")
+		}
+		r := f()
+		if rep == 0 {
+			out = r
+		} else if r != out {
+			return out + " / " + r
+		}
+	}
+	return out
+}
+
+func runPool(c *hx.Ctx, g *gen) {
+	isSource := g.r.Chance(40)
+	var text string
+	var f func() string
+	if isSource {
+		text = g.pick(poolSources)
+		f = func() string {
+			s, err := influxql.ParseSource(text)
+			if err != nil {
+				return "err " + err.Error()
+			}
+			return canonStmtSource(s)
+		}
+	} else {
+		text = g.pick(poolNext)
+		if g.r.Chance(30) {
+			text = g.cond(1)
+		}
+		f = func() string {
+			e, err := influxql.ParseExpr(text)
+			if err != nil {
+				return "err " + err.Error()
+			}
+			return dump(e)
+		}
+	}
+	var res []string
+	p := hx.Safe(func() {
+		for prev := 0; prev < 5; prev++ {
+			res = append(res, afterPrev(prev, f))
+		}
+	})
+	line := c.Emit("xpool "+hx16(text), "skip")
+	c.Case("xpool "+text, true)
+	c.Count("stmt:pooled-parser")
+	if p != "" {
+		c.Violation(line, "panic", "pooled parser: "+p)
+		return
+	}
+	for i := 1; i < len(res); i++ {
+		if res[i] != res[0] {
+			c.Violation(line, "", fmt.Sprintf("a pooled parser reads %s differently after different previous texts: %q vs %q (previous use %d)", strconv.Quote(text), res[0], res[i], i))
+			return
+		}
+	}
 }
